@@ -33,7 +33,7 @@ Consume ==
        [] e.e = "Stop" -> Stop /\ UNCHANGED nclosed
        [] e.e = "Cancel" -> Cancel /\ UNCHANGED nclosed
        [] e.e = "Grace" -> GracefulStop /\ UNCHANGED nclosed
-       [] e.e = "StopRet" -> breakerDone /\ UNCHANGED <<vars, nclosed>>
+       [] e.e \in {"StopRet", "Stop2Ret"} -> breakerDone /\ UNCHANGED <<vars, nclosed>>   \* Stop2: a second, overlapping call
        [] e.e = "GraceRet" -> gracefulDone /\ UNCHANGED <<vars, nclosed>>
        [] e.e = "EC" -> errClosed /\ UNCHANGED <<vars, nclosed>>
        [] OTHER -> UNCHANGED <<vars, nclosed>>
